@@ -87,7 +87,8 @@ class BuiltinConverterProvider(ConverterProvider):
         coercer: Coercer,
     ) -> tuple[str, Mapping[str, object]]:
         builder = CodeBuilder()
-        namespace = BuiltinCascadeNamespace(occupied=signature.parameters.keys())
+        # the closure itself is a local variable of the closure maker, it must not shadow a constant
+        namespace = BuiltinCascadeNamespace(occupied={*signature.parameters.keys(), closure_name})
         namespace.add_outer_constant("_closure_signature", signature)
         namespace.add_outer_constant("_stub_function", stub_function)
         namespace.add_outer_constant("_update_wrapper", update_wrapper)
